@@ -168,6 +168,24 @@ def gen_graph(rng, wide=False):
                       "deps": before + [gline, {"k": rng.choice(["req", "opt"]), "n": "tx", "v": None, "j": False}]})
         prods.append({"name": "tu", "version": "1", "tags": ["current"], "deps": [{"k": "req", "n": "tx", "v": None, "j": False}]})
         shape += "+tag"
+    if rng.random() < 0.25:
+        # expandtable-style tables: `if (type == exact) {…} else {…}` whose branches list DIFFERENT dependencies; listed by
+        # an Eups object in exact mode (evaluate_exact): the inexact re-walk of the topological modes must not disturb it
+        jx = rng.random() < 0.5
+        prods.append({"name": "ed", "version": "1", "tags": ["current"], "deps": []})
+        prods.append({"name": "ee", "version": "1", "tags": ["current"], "deps": []})
+        prods.append({"name": "eb", "version": "1", "tags": ["current"], "deps": [{"k": "req", "n": "ed", "v": None, "j": False}]})
+        prods.append({"name": "ec", "version": "1", "tags": ["current"], "deps": [{"k": rng.choice(["req", "opt"]), "n": "ee", "v": None, "j": False}]})
+        prods.append({"name": "etop", "version": "1", "tags": ["current"],
+                      "deps": [{"k": "req", "n": "eb", "v": None, "j": False}],
+                      "xdeps": [{"k": "req", "n": "ec", "v": "1", "j": jx}] + ([{"k": "req", "n": "ee", "v": "1", "j": True}] if jx or rng.random() < 0.5 else [])})
+        prods.append({"name": "eu", "version": "1", "tags": ["current"],
+                      "deps": [{"k": "req", "n": "etop", "v": None, "j": False}, {"k": "opt", "n": "ed", "v": None, "j": False}],
+                      "xdeps": [{"k": "req", "n": "etop", "v": "1", "j": False}]})
+        prods.append({"name": "ev", "version": "1", "tags": ["current"],
+                      "deps": [{"k": "req", "n": "ec", "v": None, "j": False}],
+                      "xdeps": [{"k": "req", "n": "eb", "v": "1", "j": False}]})
+        shape += "+exact"
     rng.shuffle(prods)
     return {"products": prods, "shape": shape}
 
@@ -652,6 +670,129 @@ def in_child_job(job):
     return r[1] if r[0] == "ok" else {"crash": r}
 
 
+# ---- exact mode: tables with an exact and an else branch, several listings by one object -----------------------
+
+XVRO = "version versionExpr current"        # no `type:exact`: the stock VRO appends `exact` to the setup type at every resolution
+XMODES = [[False, False], [True, False], [True, True]]
+
+
+def _xeups(root):
+    ecmd = L.cli_eups("list", ["-D", "-e", "--vro", XVRO] + list(root))
+    return ecmd.createEups(ecmd.opts, versionName=root[1], quiet=1)
+
+
+def run_impl_exact(job):
+    """One child per graph.  `shared`: ONE Eups object in exact mode lists every root plainly, topologically, with
+    checkCycles and plainly again, root after root; `fresh`: each of these listings by an object of its own; `uses -e`."""
+    graph, roots, queries = job
+    root = common.scratch("c13x")
+    devnull = os.open(os.devnull, os.O_WRONLY)
+    os.dup2(devnull, 1)
+    os.dup2(devnull, 2)
+    try:
+        L.install(root, graph)
+
+        def one(e, r, mode):
+            try:
+                return L.quietly(lambda: L.canon_listing(e.getDependentProducts(e.getProduct(r[0], r[1]), False,
+                                                                                 topological=mode[0], checkCycles=mode[1])))
+            except BaseException as ex:  # noqa
+                return L.err_class(ex)
+        e1 = _xeups(roots[0])
+        shared, fresh = [], []
+        for r in roots:
+            shared.append([one(e1, r, m) for m in XMODES + [[False, False]]])
+            fresh.append([one(_xeups(r), r, m) for m in XMODES])
+        users, uses = None, None
+        try:
+            ecmd = L.cli_eups("uses", ["-e", "--vro", XVRO, queries[0][0]])
+            e = ecmd.createEups()
+            info = L.quietly(e.uses)
+            uses = "ok"
+        except BaseException as ex:  # noqa
+            uses = L.err_class(ex)
+        if uses == "ok":
+            users = []
+            for n, v in queries:
+                try:
+                    users.append(L.canon_users(L.quietly(e.uses, n, v, 9999, usesInfo=info)))
+                except BaseException as ex:  # noqa
+                    users.append(L.err_class(ex))
+        return {"shared": shared, "fresh": fresh, "uses": uses, "users": users}
+    finally:
+        common.rmtree(root)
+
+
+def in_child_exact(job):
+    r = common.in_child(run_impl_exact, job)
+    return r[1] if r[0] == "ok" else {"crash": r}
+
+
+def exact_graph(g):
+    """the graph an object in exact mode walks first: every table's exact branch where it has one"""
+    return {"products": [dict(p, deps=p["xdeps"]) if "xdeps" in p else p for p in g["products"]]}
+
+
+def evaluate_exact(ctx, graphs):
+    graphs = [g for g in graphs if any("xdeps" in p for p in g["products"])]
+    if not graphs:
+        return
+    jobs = [(g, roots_of(g), queries_of(g)) for g in graphs]
+    impl = parallel_map(in_child_exact, jobs, workers=4)
+    answers = ctx.lean.ask_many([{"m": "c13", "op": "exact", "graph": {"products": g["products"]}, "roots": roots,
+                                  "modes": XMODES, "queries": queries} for g, roots, queries in jobs])
+    for (g, roots, queries), io_, ans in zip(jobs, impl, answers):
+        if "bad-op" in ans:
+            raise common.InfraError("driver rejected a C13 exact request: %s" % ans["bad-op"])
+        if "crash" in io_:
+            raise common.InfraError("implementation child failed: %r" % (io_["crash"],))
+        RX = Resolved(exact_graph(g))
+        ml = model_lists(ans)
+        ctx.hist("graph:exact_and_else_branches_differ")
+        for ri, r in enumerate(roots):
+            differs = any(p["name"] == r[0] and p["version"] == r[1] and "xdeps" in p for p in g["products"])
+            for mi, mode in enumerate(XMODES):
+                out, mo = io_["fresh"][ri][mi], ml[ri][mi]
+                inp = {"graph": g, "root": r, "mode": mode, "exact": True}
+                ctx.case(key=[g["products"], r, mode, "exact"], nontrivial=bool(RX.succ.get((r[0], r[1], True))))
+                if out != mo:
+                    ctx.disagree("listing_exact", inp, out, mo)
+                if mi == 0:
+                    for clause, fid, detail in oracle_listing(RX, r, mode, out, None):
+                        ctx.fail(clause + "_exact", inp, out, mo, note=detail, finding=fid)
+            # the same listings by the object that has listed the earlier roots in every mode; the last one (plain again)
+            # comes right after this root's own topological / checkCycles listings
+            for mi, mode in enumerate(XMODES + [[False, False]]):
+                out, freshv = io_["shared"][ri][mi], io_["fresh"][ri][mi % 3 if mi < 3 else 0]
+                inp = {"graph": g, "root": r, "mode": mode, "exact": True, "sweep": [ri, mi]}
+                ctx.case(key=[g["products"], r, mi, "exact-shared"], nontrivial=differs)
+                if out != ml[ri][mi if mi < 3 else 0]:
+                    ctx.disagree("listing_exact_after_other_listings", inp, out, ml[ri][mi if mi < 3 else 0])
+                if out != freshv:
+                    ctx.fail("listing_independent_of_history", inp, out, ml[ri][mi if mi < 3 else 0], finding=None,
+                             note="exact mode, listed after %d roots x 4 listings (+%d of its own) by the same object: %r; by a fresh one: %r" % (ri, mi, out, freshv))
+                if differs and (ri > 0 or mi == 3):
+                    ctx.hist("exact:branching_root_listed_after_topological_listings")
+        ctx.hist("uses_exact:%s" % io_["uses"])
+        if io_["uses"] != ans.get("uses"):
+            ctx.disagree("uses_exact", {"graph": g, "query": None, "exact": True}, io_["uses"], ans.get("uses"))
+        if io_["uses"] == "ok" and ans.get("uses") == "ok":
+            cache = {}
+            for qi, q in enumerate(queries):
+                out, mo = io_["users"][qi], ans["users"][qi]
+                inp = {"graph": g, "query": q, "exact": True}
+                ctx.case(key=[g["products"], "uses-exact", q], nontrivial=bool(out) and not isinstance(out, str))
+                if out != mo:
+                    ctx.disagree("users_exact", inp, out, mo)
+                for clause, fid, detail in oracle_users(RX, exact_graph(g), q, out, cache):
+                    ctx.fail(clause + "_exact", inp, out, mo, note=detail, finding=fid)
+                if out and not isinstance(out, str) and q[0] in ("ec", "eb", "ee", "ed"):
+                    ctx.hist("exact:users_through_an_exact_branch")
+        elif io_["uses"] != "ok":
+            ctx.fail("uses_no_error_exact", {"graph": g, "query": queries[0], "exact": True}, io_["uses"], ans.get("uses"),
+                     note="uses() raised %s" % io_["uses"], finding=None)
+
+
 def in_child_cli(job):
     r = common.in_child(run_cli_sample, job)
     return r[1] if r[0] == "ok" else {"val": "crash:%r" % (r,), "printed": None}
@@ -684,6 +825,13 @@ def model_lists(ans):
 
 def evaluate(ctx, graphs, ncli=2, corpus=False):
     L.preimport()
+    evaluate_exact(ctx, graphs)
+    # graphs with exact/else tables go through the exact-mode evaluation only: under the stock VRO `type:exact` appends
+    # `exact` to the object's setup type at the first resolution, so which branch a table shows depends on what was
+    # resolved before — outside the model
+    graphs = [g for g in graphs if not any("xdeps" in p for p in g["products"])]
+    if not graphs:
+        return
     jobs = [(g, roots_of(g), queries_of(g)) for g in graphs]
     impl = parallel_map(in_child_job, jobs, workers=4)
     clijobs = []
@@ -716,7 +864,7 @@ def evaluate(ctx, graphs, ncli=2, corpus=False):
             raise common.InfraError("implementation child failed: %r" % (io_["crash"],))
         R = Resolved(g)
         ml = model_lists(ans)
-        ctx.hist("shape=%s" % g.get("shape", "corpus").replace("+j", "").replace("+tag", ""))
+        ctx.hist("shape=%s" % g.get("shape", "corpus").replace("+j", "").replace("+tag", "").replace("+exact", ""))
         if "+j" in g.get("shape", ""):
             ctx.hist("shape+j")
         # a line with a tag / VRO of its own that does not resolve (or whose table cannot be read), followed in the same
@@ -987,7 +1135,8 @@ def corpus_graphs():
 
 FLOORS = ("closure:cyclic", "closure:two_declared_versions", "closure:unresolved", "shape=cyclic",
           "closure:unsetup", "closure:unsetup_reentrant", "graph:tagged_line_then_split_versions",
-          "graph:tagged_line_undeclared", "graph:tagged_line_unreadable_table", "closure:j_target_opened_elsewhere",
+          "graph:tagged_line_undeclared", "graph:tagged_line_unreadable_table", "graph:exact_and_else_branches_differ",
+          "exact:branching_root_listed_after_topological_listings", "exact:users_through_an_exact_branch", "closure:j_target_opened_elsewhere",
           "closure:j_target_not_opened", "graph:has_prefix_versions", "users:prefix_version_with_distinct_users")
 
 
@@ -1047,6 +1196,14 @@ def replay(ctx, rp):
         a = ctx.lean.ask({"m": "c13", "op": "topo", "graph": g, "cc": cc})
         return {"input": inp, "impl_output": impl, "model_output": a, "fails": []}
     g = inp["graph"]
+    if inp.get("exact"):
+        # exact-mode cases depend on everything the shared object listed before: re-run the whole graph
+        c2 = common.Ctx(ctx.pid, ctx.tier, ctx.seed, 600)
+        c2.lean = ctx.lean
+        evaluate_exact(c2, [g])
+        fails = [{"clause": f["clause"], "class": f.get("finding_class"), "detail": f.get("note")} for f in c2.failures]
+        return {"input": inp, "impl_output": [d["impl_output"] for d in c2.disagreements][:3],
+                "model_output": [d["model_output"] for d in c2.disagreements][:3], "agree": not c2.disagreements, "fails": fails[:5]}
     R = Resolved(g)
     cli_fails = []
     if "setup" in inp:
